@@ -37,4 +37,47 @@ def run(tier, seed):
         ],
         "explanation": "from_ranges is compared with an independent oracle for every input list; complete per LEN (unwinding assertions on).",
     })
-    return obs, meta, None
+    return obs, meta, confirm
+
+
+def confirm(ob):
+    """Replay Kani's counterexample for from_ranges through the public API."""
+    import re
+    import replay
+    m = re.search(r"hist\[(\d+)\]\.from_ranges", ob.name)
+    vals = (ob.cex or {}).get("playback_values") or []
+    if not m or not vals:
+        return None
+    L = int(m.group(1))
+    t = {1: "H1", 2: "H2", 3: "H3", 4: "H4", 10: "Histogram10"}.get(L)
+    if t is None or len(vals) < L + 4:
+        return None
+    xs = [float(v["as_f64"]) for v in vals[:L + 3]]
+    l = vals[L + 3].get("as_u64")
+    if l is None or l > L + 3:
+        return None
+    inp = xs[:l]
+    # oracle from the statement
+    exp = None
+    for i, r in enumerate(inp[:L + 1]):
+        if r != r:
+            exp = "NaN"
+            break
+        if i > 0 and inp[i - 1] > r:
+            exp = "NotSorted"
+            break
+    if exp is None and len(inp) < L + 1:
+        exp = "NotEnoughRanges"
+    prog = {"type": t, "ctor": ["from_ranges", inp], "ops": [], "observe": ["ranges", "bins"]}
+    res = replay.run_program(prog)
+    if res.get("error"):
+        return {"replay_error": res["error"]}
+    got_err = res["obs"].get("ctor_err")
+    if exp is None:
+        same = got_err is None and [replay.bits(a) for a in res["obs"].get("ranges", [])] == [replay.bits(a) for a in inp[:L + 1]] \
+            and res["obs"].get("bins") == [0] * L
+    else:
+        same = got_err == exp
+    return {"program": prog, "expected": {"result": exp or "Ok(ranges unchanged, bins zero)"},
+            "actual": {"ctor_err": got_err, "ranges": [repr(a) for a in res["obs"].get("ranges", [])], "bins": res["obs"].get("bins")},
+            "panic": res["panic"], "confirmed_on_real_code": bool(not same or res["panic"])}
